@@ -6,7 +6,9 @@
 
 use std::{error::Error, fmt, str::FromStr};
 
-use onig::{MatchParam, Regex, RegexOptions, SearchOptions, Syntax, SyntaxOperator};
+use onig::{
+    MatchParam, Regex, RegexOptions, SearchOptions, Syntax, SyntaxBehavior, SyntaxOperator,
+};
 
 use super::{Matcher, MatcherIO, WalkEntry};
 
@@ -104,11 +106,18 @@ impl RegexMatcher {
             syntax.enable_operators(SyntaxOperator::SYNTAX_OPERATOR_ESC_VBAR_ALT);
         }
 
-        let options = if ignore_case {
+        let mut options = if ignore_case {
             RegexOptions::REGEX_OPTION_IGNORECASE
         } else {
             RegexOptions::REGEX_OPTION_NONE
         };
+        if matches!(regex_type, RegexType::Grep) {
+            // GNU's grep syntax is posix-basic with a few additions: a newline in the
+            // path is a character like any other for '.' and for a negated bracket
+            // expression (Oniguruma's grep syntax excludes it from both).
+            syntax.disable_behavior(SyntaxBehavior::SYNTAX_BEHAVIOR_NOT_NEWLINE_IN_NEGATIVE_CC);
+            options |= RegexOptions::REGEX_OPTION_MULTILINE;
+        }
         // Report errors against the pattern as given.
         Regex::with_options(pattern, options, &syntax)?;
         // The engine stops at the first alternative that matches, so anchor the
